@@ -12,14 +12,22 @@ pub fn keyfn(f: &Finding, p: &Program, o: &Outcome) -> Option<String> {
 
 pub fn spec(tier: Tier) -> RelSpec {
     let mk = |depth, sources: Vec<SrcKind>, max_joins| GenCfg { depth, sources, max_joins, letters: Letters::Core };
+    // exploration aid (not a registered tier): MC_C01_DEPTH=3 enumerates depth-3 programs over two source kinds
+    if let Ok(d) = std::env::var("MC_C01_DEPTH") {
+        let d: usize = d.parse().unwrap_or(3);
+        return RelSpec { property: "C01", cfgs: vec![mk(d, vec![SrcKind::OpenT, SrcKind::LetClosed], 1)], exh_depth: 0, exh_size: (2, 1), decides: vec![Kind::Rows, Kind::Arity, Kind::EngineReject], keyfn };
+    }
     let cfgs = match tier {
         Tier::Quick => vec![
             mk(2, vec![SrcKind::OpenT, SrcKind::LetClosed, SrcKind::Literal, SrcKind::SubClosed, SrcKind::LetSorted], 1),
+            // the rules that cut a pipeline into sub-queries, one step deeper over a small alphabet
+            GenCfg { depth: 3, sources: vec![SrcKind::OpenT, SrcKind::LetClosed], max_joins: 1, letters: Letters::Split },
         ],
         // same program depth as quick (depth-3 programs meet defect causes that are not triaged yet,
         // see DESIGN §9); deeper in the instance dimension: every program on the whole exhaustive space
         Tier::Thorough => vec![
             mk(2, vec![SrcKind::OpenT, SrcKind::LetClosed, SrcKind::Literal, SrcKind::SubClosed, SrcKind::LetSorted], 2),
+            GenCfg { depth: 4, sources: vec![SrcKind::OpenT, SrcKind::LetClosed, SrcKind::LetSorted], max_joins: 1, letters: Letters::Split },
         ],
     };
     RelSpec {
